@@ -7,8 +7,8 @@ PROP = "C39"
 LEVEL = "other"
 QUICK = ["K0"]
 THOROUGH = ALL_CONFIGS
-ASSUMPTIONS = ["FromStr parsers of the individual option types (sizes, nursery, GC trigger, CPU lists) are value-level and not decided"]
-LEVEL_NOTE = "partial: decides the all-or-nothing clause (no option changes unless the value parsed and validated; true is returned exactly then; bulk setting applies pairs in order and stops at the first failure); parser grammars are not decided"
+ASSUMPTIONS = ["FromStr grammars of the individual option types (nursery, GC trigger, CPU lists) are value-level and not decided beyond the overflow and NaN clauses"]
+LEVEL_NOTE = "partial: decides the all-or-nothing clause (no option changes unless the value parsed and validated; true is returned exactly then; bulk setting applies pairs in order and stops at the first failure), that a suffixed size is scaled only by u64::checked_mul with the k/m/g/t table 1024^n and narrowed with try_into (overflow is reported, not wrapped), and that a floating-point nursery bound is accepted only on a path where a comparison involving it holds (so NaN is rejected); the rest of the parser grammars is not decided"
 EXPLANATION = (
     "Partial claim. MMTKOption::set writes the value only under validator(&value)==true and returns true exactly there; the only "
     "writers of MMTKOption.value are new and set; in the macro-expanded Options::set_from_string_inner every string arm (one per field "
@@ -97,3 +97,67 @@ def run(ctx, F):
         edges = branch_edges(b, r"set_from_string_inner", "Err")
         okn = bool(edges) and all(inner[0].bb not in (b.cfg.reachable_from(s) | {s}) for a, s in edges)
         ctx.judge(okn, "C39.bulk", "no further pair is applied after a failing one", expected="the Err arm leaves the loop", found=str(edges), where=where(b), key="C39.bulk|stop")
+
+    # ---- C39.size-overflow: a suffixed size is scaled with an overflow-reporting multiplication by 1024^n
+    ps = F.fn("util::options::GCTriggerSelector::parse_size")
+    SUFFIX = {ord("k"): 1 << 10, ord("m"): 1 << 20, ord("g"): 1 << 30, ord("t"): 1 << 40}
+    ti = [c for c in live_calls(ps) if c.name == "try_into"]
+    ctx.judge(len(ti) == 1, "C39.size-overflow", "the scaled size is narrowed with try_into", expected="one try_into::<usize>()", found=str(len(ti)), where=where(ps), key="C39.size-overflow|try_into")
+    seen = {}
+    for c in ti:
+        t = strip(ps.flow.arg_tree(c, 0))
+        alts = list(t[1]) if t and t[0] == "phi" else [t]
+        # the value comes from the Some(..) payload of the selected product
+        prods = []
+        for x in walk(t):
+            if x and x[0] == "call" and isinstance(x[1], str) and last_seg(x[2] or x[1]) not in ("branch", "map_err", "parse", "index", "to_lowercase", "len") and len(x[3]) >= 1 and "str::parse" in show(x[3][0]):
+                if x not in prods:
+                    prods.append(x)
+        ctx.judge(bool(prods), "C39.size-overflow", "the narrowed value is the scaled parsed number", expected="try_into(checked_mul(parsed, ..)?)", found=show(t)[:120], where=where(ps, c.line),
+                  key="C39.size-overflow|flow")
+        for top in prods:
+            nm = last_seg(top[2] or top[1])
+            k = const_arg(top[3][1]) if len(top[3]) == 2 else None
+            okp = nm == "checked_mul" and k in SUFFIX.values()
+            ctx.judge(okp, "C39.size-overflow", "suffix multiplication reports overflow", expected="u64::checked_mul(parsed, 1024^n)", found=show(top)[-80:], where=where(ps, c.line),
+                      key="C39.size-overflow|op|%s" % (k if okp else nm))
+            if okp:
+                seen[k] = top
+    for c in [c for c in live_calls(ps) if c.name == "checked_mul"]:
+        k = const_arg(ps.flow.arg_tree(c, 1))
+        chars = [const_arg(p.tree[3][1]) for p in guards(ps, c.bb) if p.val is True and p.tree and p.tree[0] == "call" and last_seg(p.tree[2] or p.tree[1]) == "ends_with" and len(p.tree[3]) == 2 and isinstance(const_arg(p.tree[3][1]), int)]
+        ctx.judge(len(chars) == 1 and SUFFIX.get(chars[0]) == k, "C39.size-overflow", "suffix %s scales by %s" % ([chr(x) for x in chars], k), expected="k=2^10, m=2^20, g=2^30, t=2^40",
+                  found="suffix chars %s multiplier %s" % (chars, k), where=where(ps, c.line), key="C39.size-overflow|table|%s" % k)
+    ctx.judge(set(seen) == set(SUFFIX.values()), "C39.size-overflow", "all four suffixes are handled with a checked product", expected=str(sorted(SUFFIX.values())), found=str(sorted(seen)), where=where(ps),
+              key="C39.size-overflow|all")
+    bad_ops = [c for c in live_calls(ps) if c.name and re.match(r"^(wrapping_|saturating_|overflowing_|unchecked_|checked_sh|pow$|checked_pow)", c.name)]
+    raw = [x for b in range(len(ps.blocks)) if b in ps.cfg.live for st in ps.blocks[b]["s"] if st[0] == "=" and st[2][0] == "bin" and st[2][1] in ("Mul", "Shl", "MulWithOverflow", "MulUnchecked", "ShlUnchecked") for x in [st]]
+    ctx.judge(not bad_ops and not raw, "C39.size-overflow", "no wrapping/shift arithmetic on the parsed number", expected="only checked_mul", found=str([c.name for c in bad_ops] + [st[2][1] for st in raw]),
+              where=where(ps), key="C39.size-overflow|no-wrap")
+
+    # ---- C39.nan-rejected: a float bound is accepted only on a path where a comparison involving it HOLDS (NaN fails every comparison)
+    nv = F.fn("util::options::NurserySize::validate")
+    ns = F.adts.get("util::options::NurserySize")
+    ctx.require(ns is not None, "C39: NurserySize enum not found")
+    CMP = ("Lt", "Le", "Gt", "Ge", "Eq")
+    nfl = 0
+    for v in ns["variants"]:
+        fl = [fld["name"] for fld in v["fields"] if fld["ty"] in ("f64", "f32")]
+        if not fl:
+            continue
+        rows = [(b, strip(t), g) for b, t, g in ret_table(nv) if any(show(p.tree) == "arg1" and p.val == v["name"] for p in g)]
+        ctx.judge(bool(rows), "C39.nan-rejected", "NurserySize::validate handles %s" % v["name"], expected="an arm", found="none", where=where(nv), key="C39.nan-rejected|arm|" + v["name"])
+        for b, t, g in rows:
+            if const_arg(t) is False:
+                continue
+            pos = [p.tree for p in g if p.val is True and p.tree and p.tree[0] == "bin" and p.tree[1] in CMP]
+            shape = const_arg(t) is True or (t and t[0] == "bin" and t[1] in CMP)
+            if t and t[0] == "bin" and t[1] in CMP:
+                pos.append(t)
+            for name in fl:
+                nfl += 1
+                covered = any(re.search(r"as %s\.%s\b" % (v["name"], name), show(x)) for x in pos)
+                ctx.judge(shape and covered, "C39.nan-rejected", "%s.%s: acceptance requires a comparison on it to hold" % (v["name"], name),
+                          expected="accepting path is a conjunction of comparisons that are true (no negated comparison), one of them involving %s" % name,
+                          found="returns %s under %s" % (show(t)[:80], [(show(p.tree)[:60], p.val) for p in g]), where=where(nv), key="C39.nan-rejected|%s.%s" % (v["name"], name))
+    ctx.floor("C39.nan-rejected", nfl, 2, "float fields of NurserySize variants")
